@@ -82,6 +82,7 @@ fn real_main() {
         "visit-events" => visit_ev::visit_events(&args),
         "build-events" => build_ev::build_events(&args),
         "edit-events" => edit_ev::edit_events(&args),
+        "gen-edit-random" => edit_ev::gen_edit_random(&args),
         "digest" => digest_ev::digest(&args),
         _ => {
             eprintln!("unknown command {cmd:?}");
